@@ -35,7 +35,7 @@ fn fixed_zone_file(off: i32) -> PathBuf {
     if !p.exists() {
         let a = off.unsigned_abs();
         let footer = format!("LCL{}{}:{:02}:{:02}", if off > 0 { "-" } else { "" }, a / 3600, a / 60 % 60, a % 60);
-        let s = Synth { version: 2, transitions: vec![], type_idx: vec![], types: vec![(off, false)], footer };
+        let s = Synth { version: 2, transitions: vec![], type_idx: vec![], types: vec![(off, false)], footer, desigs: None };
         let tmp = zone_dir().join(format!("fixed_{}_{}_{:?}.tmp", std::process::id(), off, std::thread::current().id()));
         let _ = std::fs::write(&tmp, s.bytes());
         let _ = std::fs::rename(&tmp, &p);
